@@ -293,9 +293,19 @@ def _refs_function(trees, path, node):
             binds = _module_bindings(trees, p)
             for n in ast.walk(tree):
                 if isinstance(n, ast.Attribute) and n.attr == name:
-                    if p != path and isinstance(n.value, ast.Name) and \
-                            binds.get(n.value.id) == ('mod', defmod) and \
-                            id(n) in by_func and \
+                    through_module = isinstance(n.value, ast.Name) and \
+                        binds.get(n.value.id) == ('mod', defmod)
+                    if not through_module:
+                        # a method or attribute of the same name on some
+                        # object: not this function -- unless the object
+                        # could be the module itself
+                        if isinstance(n.value, ast.Name) and \
+                                binds.get(n.value.id, ('obj',))[0] == 'mod' \
+                                and defmod.startswith(
+                                    binds[n.value.id][1] + '.'):
+                            return [], False, {}
+                        continue
+                    if p != path and id(n) in by_func and \
                             isinstance(n.ctx, ast.Load):
                         calls.append(by_func[id(n)])
                         home[id(by_func[id(n)])] = p
@@ -1192,6 +1202,35 @@ def _own_exprs(st):
                 yield v
 
 
+def _nested_defs_to_lambdas(helper):
+    """Inside a helper that is going to be written out: `def rank(b):
+    return E` (one expression, no decorator, plain parameters) is
+    `rank = lambda b: E`, which can travel with the body."""
+    for blk in ast.walk(helper):
+        for name in _BLOCKS:
+            lst = getattr(blk, name, None)
+            if not isinstance(lst, list):
+                continue
+            for i, st in enumerate(lst):
+                if isinstance(st, ast.FunctionDef) and st is not helper and \
+                        not st.decorator_list and st.returns is None:
+                    body = _body_wo_doc(st)
+                    if len(body) == 1 and isinstance(body[0], ast.Return) \
+                            and body[0].value is not None and not any(
+                                isinstance(x, (ast.Yield, ast.YieldFrom,
+                                               ast.Await))
+                                for x in ast.walk(body[0].value)) and \
+                            not any(a.annotation is not None
+                                    for a in ast.walk(st.args)
+                                    if isinstance(a, ast.arg)):
+                        lst[i] = ast.copy_location(ast.Assign(
+                            targets=[ast.Name(id=st.name, ctx=ast.Store())],
+                            value=ast.Lambda(args=st.args,
+                                             body=body[0].value),
+                            lineno=st.lineno), st)
+                        ast.fix_missing_locations(lst[i])
+
+
 class Inliner:
     def __init__(self, trees, known):
         self.trees = trees
@@ -1213,6 +1252,7 @@ class Inliner:
                         '%s.%s.%s' % (mod, owner.name, node.name)
                     if q in self.known:
                         continue
+                    _nested_defs_to_lambdas(node)
                     k = _eligible(kind, owner, node)
                     if k is None:
                         continue
